@@ -63,6 +63,19 @@ def run(F, R, ctx):
                    "storing None: another thread's collection would later dereference the pointer while this thread is "
                    "running again and mutating its stack" % (fn.short(), fn.blocks[i]["line"]), fn.loc(fn.blocks[i]["line"]),
                    sample=True)
+    # the context stays published while the thread waits: the retract comes after the wait
+    for fn, st in pubs:
+        waits = fn.call_blocks(r"Atomic(Bool|<bool>)\}::load$") + fn.call_blocks(r"\{impl VmCore\}::park_thread_while_paused$")
+        dom = fn.dominators()
+        for i, p in st:
+            if p:
+                continue
+            R.inst("C15.a", "%s / context retracted only after the wait for resume" % fn.short(),
+                   any(w in dom.get(i, ()) for w in waits),
+                   "%s stores None into Synchronizer.ctx on a path that has not gone through the wait for the stop request to "
+                   "end (paused flag / park): the stopping thread may read the pointer, then this thread resumes and mutates "
+                   "its stack while it is being scanned — or the stopper never sees the context and waits forever" % fn.short(),
+                   fn.loc(fn.blocks[i]["line"]), sample=True)
     # ---- c
     allowed = re.compile(r"^steel::steel_vm::vm::\{impl Synchronizer\}::(call_per_ctx|maybe_call_per_ctx|enumerate_stacks)(::\{closure#\d+\})*$")
     users = []
